@@ -329,6 +329,11 @@ pub fn matmul_blocked(
     let m = if transpose_a { cols_a } else { rows_a };
     let l = if transpose_a { rows_a } else { cols_a };
     let n = if transpose_b { rows_b } else { cols_b };
+    assert_eq!(
+        l,
+        if transpose_b { cols_b } else { rows_b },
+        "matrix shapes not conformable"
+    );
 
     let mut c = vec![0.; m * n];
 
@@ -437,6 +442,11 @@ pub fn matmul(
         let m = if transpose_a { cols_a } else { rows_a };
         let l = if transpose_a { rows_a } else { cols_a };
         let n = if transpose_b { rows_b } else { cols_b };
+        assert_eq!(
+            l,
+            if transpose_b { cols_b } else { rows_b },
+            "matrix shapes not conformable"
+        );
 
         let mut c = vec![0.; m * n];
 
